@@ -88,12 +88,22 @@ def _key(v: Any) -> Any:
 
 
 def group_check(item: Item, subcheck: str, sources: Sequence[Tuple[str, Any]],
-                symptom_of: Optional[Callable[[Any, Any], str]] = None) -> None:
-    """All copies of one fact must be equal.  where = the copy that deviates from the majority."""
+                symptom_of: Optional[Callable[[Any, Any], str]] = None, topic: Optional[str] = None) -> None:
+    """All copies of one fact must be equal.
+
+    With a strict plurality, where = each copy that deviates from it (one fingerprint per deviating copy);
+    without one (e.g. two copies that disagree) nobody can be blamed: one verdict, where = the topic."""
     if len(sources) < 2:
         return
-    maj = majority(sources)
+    cnt: Counter = Counter(_key(v) for _, v in sources)
+    if len(cnt) == 1:
+        return
     listing = "; ".join(f"{lb}={_hex(v)}" for lb, v in sources)
+    ranked = cnt.most_common()
+    if ranked[0][1] == ranked[1][1]:
+        item.violate(subcheck, topic or item.id, "the copies disagree and none is in the majority", f"{item.id}: {listing}")
+        return
+    maj = majority(sources)
     for lb, v in sources:
         if _key(v) != _key(maj):
             sym = symptom_of(v, maj) if symptom_of else "differs from the other copies"
@@ -391,8 +401,6 @@ def check_lengths(py_table: Dict[int, Any], rust: Any) -> List[Item]:
             continue
         p = py_row(py_table[op])
         where = f"opcode {op:02X} {short_name(p['name'])}"
-        if op in PRE_OPCODES:
-            continue
         ops = list(p["operands"])
         coding = list(reversed(list(enumerate(ops)))) if p["rev"] else list(enumerate(ops))
         try:
@@ -401,12 +409,14 @@ def check_lengths(py_table: Dict[int, Any], rust: Any) -> List[Item]:
             items.append(Item(f"len:{op:02X}", False, ["len:unmapped-operand-class"]))
             continue
         code = bytes([op]) + tail
+        if op in PRE_OPCODES:
+            code = bytes([op, 0x00])  # a prefix is only meaningful in front of an instruction: PRE + NOP
         exp = len(code)
         mem = {0x100000 + 0xEC: 0x00, 0x100000 + 0xED: 0x00, 0x100000 + 0xEE: 0x00,
                0x100030: 0x00, 0x100031: 0x30, 0x100032: 0x04, 0x100038: 0x00, 0x100039: 0x38, 0x10003A: 0x04}
         py = py_run(code, BASE_REGS, mem)
         rs = rs_run(rust, code, BASE_REGS, mem)
-        labels = ["len:" + ("operands" if ops else "no-operands")]
+        labels = ["len:" + ("pre-row" if op in PRE_OPCODES else "operands" if ops else "no-operands")]
         it = Item(f"len:{op:02X}", bool(ops), labels, {"code": code.hex(), "table_len": exp,
                                                         "py": py.get("len", py.get("err")),
                                                         "rs": rs.get("len", rs.get("err"))})
@@ -424,6 +434,39 @@ def check_lengths(py_table: Dict[int, Any], rust: Any) -> List[Item]:
             if v != maj:
                 it.violate("encoded-length", where, f"{lb} disagrees with the other two",
                            f"code {code.hex()}: " + "; ".join(f"{a}={b}" for a, b in srcs))
+        items.append(it)
+    return items
+
+
+_COND_F = {None: 0x00, "Z": 0x02, "NZ": 0x00, "C": 0x01, "NC": 0x00}
+
+
+def check_rel_sign(py_table: Dict[int, Any], rust: Any) -> List[Item]:
+    """The sign of a relative jump lives in the Python operand prototype (ImmOffset('+'/'-')); the Rust
+    OperandKind::ImmOffset cannot express it, so the Rust copy is observed: JR +05 / -05 with the row's
+    condition satisfied (README: Z/NZ/C/NC test the Z and C flags)."""
+    items: List[Item] = []
+    for op in sorted(py_table):
+        p = py_row(py_table[op])
+        signs = [o.get("sign") for o in p["operands"] if o["cls"] == "ImmOffset"]
+        if len(signs) != 1 or p["cond"] not in _COND_F:
+            continue
+        regs = dict(BASE_REGS)
+        regs["F"] = _COND_F[p["cond"]]
+        code = bytes([op, 0x05])
+
+        def seen(res: Dict[str, Any]) -> Any:
+            if "err" in res or "pc" not in res:
+                return f"error {res.get('err')}"
+            d = res["pc"] - (0x1000 + 2)
+            return {5: "+", -5: "-", 0: "not taken"}.get(d, "unrecognised displacement")
+
+        srcs = [(f"opcode_table ImmOffset sign [opcode {op:02X}]", signs[0]),
+                (f"python core [opcode {op:02X}]", seen(py_run(code, regs, {}))),
+                (f"rust core [opcode {op:02X}]", seen(rs_run(rust, code, regs, {})))]
+        it = Item(f"rel-sign:{op:02X}", True, ["rel-sign"], {"opcode": f"{op:02X}", "cond": p["cond"],
+                                                             "copies": {k: v for k, v in srcs}})
+        group_check(it, "relative-jump-sign", srcs, topic=f"opcode {op:02X}")
         items.append(it)
     return items
 
@@ -513,6 +556,16 @@ def check_registers(rust: Any, dump: Dict[str, Any]) -> List[Item]:
             it.violate("register-names", "opcodes.REGISTERS", "names a register unknown to the other tables", f"register {n}")
     items.append(it)
 
+    # flag names
+    flag_srcs = [("arch.SC62015.flags", sorted(str(f) for f in SC62015.flags)),
+                 ("arch.SC62015.flag_roles", sorted(str(f) for f in SC62015.flag_roles)),
+                 ("emulator.FLAG_TO_REGISTER", sorted(E.FLAG_TO_REGISTER)),
+                 ("opcodes.CFlag/ZFlag", sorted([str(O.CFlag), str(O.ZFlag)])),
+                 ("rust FC/FZ registers", sorted(n[1:] for n in rs_mask if n in ("FC", "FZ")))]
+    it = Item("flag-names", True, ["reg:names"], {"copies": {k: v for k, v in flag_srcs}})
+    group_check(it, "flag-names", flag_srcs, topic="flag names")
+    items.append(it)
+
     # widths
     for n in ALL_REGS:
         storage: List[Tuple[str, Any]] = []
@@ -528,6 +581,8 @@ def check_registers(rust: Any, dump: Dict[str, Any]) -> List[Item]:
             storage.append(("rust SNAPSHOT_REGISTER_LAYOUT", rs_layout[n]))
         if n in py_layout:
             storage.append(("pce500 _SNAPSHOT_REGISTER_LAYOUT", py_layout[n]))
+        if n == "PC" and hasattr(SC62015, "address_size"):
+            storage.append(("arch.SC62015.address_size", int(SC62015.address_size)))
         masks: List[Tuple[str, Any]] = []
         if n in enum_names:
             masks.append(("python Registers (observed)", py_reg_mask(n)))
@@ -542,8 +597,8 @@ def check_registers(rust: Any, dump: Dict[str, Any]) -> List[Item]:
             masks.append(("rust register_width (bits)", (1 << int(rs_width[n])) - 1))
         it = Item(f"reg-width:{n}", len(storage) + len(masks) >= 2, ["reg:width"],
                   {"register": n, "storage_bytes": dict(storage), "masks": {k: hex(v) for k, v in masks}})
-        group_check(it, "register-storage-width", [(f"{lb} [{n}]", v) for lb, v in storage])
-        group_check(it, "register-mask", [(f"{lb} [{n}]", v) for lb, v in masks])
+        group_check(it, "register-storage-width", [(f"{lb} [{n}]", v) for lb, v in storage], topic=f"register {n}")
+        group_check(it, "register-mask", [(f"{lb} [{n}]", v) for lb, v in masks], topic=f"register {n}")
         if storage and masks:
             sb = majority(storage)
             mk = majority(masks)
@@ -566,9 +621,10 @@ def check_registers(rust: Any, dump: Dict[str, Any]) -> List[Item]:
         srcs.append(("python Registers (observed write)", (base, pimg)))
         srcs.append(("rust LlamaState (observed write)", (base, rs_beh_sub[sub][0])))
         it = Item(f"subreg:{sub}", True, ["reg:subreg"], {"sub": sub, "copies": {k: [v[0], hex(v[1])] for k, v in srcs}})
-        group_check(it, "subregister-layout", [(f"{lb} [{sub}]", list(v)) for lb, v in srcs])
+        group_check(it, "subregister-layout", [(f"{lb} [{sub}]", list(v)) for lb, v in srcs], topic=f"sub-register {sub}")
         group_check(it, "subregister-read", [(f"python Registers (observed read) [{sub}]", pread),
-                                             (f"rust LlamaState (observed read) [{sub}]", rs_beh_sub[sub][1])])
+                                             (f"rust LlamaState (observed read) [{sub}]", rs_beh_sub[sub][1])],
+                    topic=f"sub-register {sub} read back from an all-ones {base}")
         items.append(it)
 
     # PS exists only in the Binary Ninja table: it must lie inside PC's storage
@@ -645,7 +701,7 @@ def check_imem(rust: Any, dump: Dict[str, Any]) -> List[Item]:
                   {"name": n, "copies": {k: hex(v) for k, v in srcs}} if len(srcs) >= 2 else None)
         if n in rs and n not in py:
             it.violate("imem-offset", f"rust memory::IMEM_{n}_OFFSET", "names a register the python table does not have", n)
-        group_check(it, "imem-offset", srcs)
+        group_check(it, "imem-offset", srcs, topic=f"IMEM register {n}")
         if n in py and not (0 <= py[n] < IMEM_BASE_EXPECTED_LEN):
             it.violate("imem-offset", f"opcodes.IMEMRegisters.{n}", "lies outside the 256-byte internal memory", hex(py[n]))
         items.append(it)
@@ -670,7 +726,7 @@ def check_imem(rust: Any, dump: Dict[str, Any]) -> List[Item]:
                 (f"rust core, pointer byte used for {name}", used(r))]
         it = Item(f"imem-use:{name}", True, ["imem:pointer-use"], {"pointer": name, "code": code.hex(),
                                                                   "copies": {k: _hex(v) for k, v in srcs}})
-        group_check(it, "imem-pointer", srcs)
+        group_check(it, "imem-pointer", srcs, topic=f"IMEM pointer {name}")
         items.append(it)
     return items
 
@@ -696,6 +752,17 @@ def _vector_from_pc(pc: Any) -> Any:
     return f"unrecognised (pc={pc:#x})"
 
 
+def _vector_from_pcs(pcs: Sequence[int], note: Any = "") -> Any:
+    """Machine-level probes report PC after whole steps: the handler's first instruction (a NOP) may already
+    have run, so pc and pc-1 are both tried (the page encoding makes the answer unambiguous)."""
+    for pc in pcs:
+        for cand in (pc, pc - 1):
+            v = _vector_from_pc(cand)
+            if isinstance(v, int):
+                return v
+    return f"unrecognised (pcs={[hex(x) for x in pcs]} {note})"
+
+
 def check_vectors(rust: Any, dump: Dict[str, Any]) -> List[Item]:
     from sc62015.pysc62015.instr import opcodes as O
     from sc62015.pysc62015.emulator import Emulator, RegisterName
@@ -714,10 +781,8 @@ def check_vectors(rust: Any, dump: Dict[str, Any]) -> List[Item]:
                       "regs": {"PC": 0x10000, "S": 0x20000}, "source": "MTI", "steps": 2})
     if not resp.get("ok"):
         raise HarnessError(f"c17.irq_runtime failed: {resp}")
-    pcs = [int(x) for x in resp.get("pcs", [])]
-    taken = [x for x in pcs if isinstance(_vector_from_pc(x), int)]
-    irq.append(("rust CoreRuntime, hardware interrupt delivery",
-                _vector_from_pc(taken[0]) if taken else f"unrecognised (pcs={[hex(x) for x in pcs]} {resp.get('errors')})"))
+    pcs = [int(x) for x in resp.get("pcs", [])][1:]
+    irq.append(("rust CoreRuntime, hardware interrupt delivery", _vector_from_pcs(pcs, resp.get("errors"))))
     try:
         irq.append(("pce500 emulator, hardware interrupt delivery", _pce500_irq_vector(page)))
     except _Skip:
@@ -752,21 +817,23 @@ def check_vectors(rust: Any, dump: Dict[str, Any]) -> List[Item]:
 
     irq_major = majority(irq)
     rst_major = majority(rst)
+    irq_vals = {v for _, v in irq if isinstance(v, int)}
+    rst_vals = {v for _, v in rst if isinstance(v, int)}
 
     def sym_reset(v: Any, maj: Any) -> str:
-        if v == irq_major and v != maj:
+        if v in irq_vals and v != maj:
             return "uses the interrupt vector address as reset vector"
         return "differs from the other copies"
 
     def sym_irq(v: Any, maj: Any) -> str:
-        if v == rst_major and v != maj:
+        if v in rst_vals and v != maj:
             return "uses the reset vector address as interrupt vector"
         return "differs from the other copies"
 
     it1 = Item("vector:interrupt", True, ["vector"], {"vector": "interrupt", "copies": {k: _hex(v) for k, v in irq}})
-    group_check(it1, "vector:interrupt", irq, sym_irq)
+    group_check(it1, "vector:interrupt", irq, sym_irq, "interrupt vector")
     it2 = Item("vector:reset", True, ["vector"], {"vector": "reset", "copies": {k: _hex(v) for k, v in rst}})
-    group_check(it2, "vector:reset", rst, sym_reset)
+    group_check(it2, "vector:reset", rst, sym_reset, "reset vector")
     it3 = Item("vector:distinct", False, ["vector"])
     if irq_major == rst_major:
         it3.violate("vector", "interrupt and reset vector", "are the same address", _hex(irq_major))
@@ -814,7 +881,23 @@ def _pce500_reset_vector(page: Dict[int, int]) -> Any:
 
 
 def _pce500_irq_vector(page: Dict[int, int]) -> Any:
-    raise _Skip()
+    """ON-key interrupt through the machine's public API: IMR = IRM|ONKM, press_key("KEY_ON"), one step."""
+    from sc62015.pysc62015.emulator import RegisterName
+
+    emu = _pce500_emulator(page)
+    try:
+        emu.reset()
+        emu.cpu.regs.set(RegisterName.PC, 0xC0000)
+        emu.cpu.regs.set(RegisterName.S, 0xBFF00)
+        emu.memory.write_byte(0x100000 + 0xFB, 0x88)
+        emu.press_key("KEY_ON")
+        pcs = []
+        for _ in range(2):
+            emu.step()
+            pcs.append(int(emu.cpu.regs.get(RegisterName.PC)))
+    except Exception:
+        raise _Skip()
+    return _vector_from_pcs(pcs)
 
 
 # --------------------------------------------------------------------------------------------------
@@ -892,7 +975,7 @@ def check_address_space(rust: Any, dump: Dict[str, Any]) -> List[Item]:
             srcs = [(f"pce500.emulator.PCE500Emulator.{'INTERNAL_ROM_START' if name == 'ROM_WINDOW_START' else 'INTERNAL_ROM_SIZE' if name == 'ROM_WINDOW_LEN' else name}", int(pyv)),
                     (f"rust {rsk.replace('.', '::')}", int(c[rsk]))]
             it = Item(f"const:{name}", True, ["const:machine-map"], {"copies": {k: _hex(v) for k, v in srcs}})
-            group_check(it, "address-space", srcs)
+            group_check(it, "address-space", srcs, topic=f"PC-E500 {name}")
             items.append(it)
     return items
 
@@ -945,7 +1028,7 @@ def check_pre_table(rust: Any) -> List[Item]:
         srcs.append((f"rust core, MV (m),(n) [{tag}]", modes(r)))
         it = Item(f"pre:{pre:02X}" if pre is not None else "pre:none", True, ["pre"],
                   {"prefix": tag, "copies": {k: _hex(v) for k, v in srcs}})
-        group_check(it, "pre-table", srcs)
+        group_check(it, "pre-table", srcs, topic=tag)
         items.append(it)
     return items
 
@@ -1020,6 +1103,7 @@ def collect_items() -> List[Item]:
     items: List[Item] = []
     items += check_opcode_rows(dict(OPCODES), dump["opcodes"])
     items += check_lengths(dict(OPCODES), rust)
+    items += check_rel_sign(dict(OPCODES), rust)
     items += check_registers(rust, dump)
     items += check_imem(rust, dump)
     items += check_vectors(rust, dump)
